@@ -15,6 +15,7 @@ import tempfile
 import time
 
 from .. import build, fs
+from ..typegrid import typegrid
 
 LEVEL = 'fault_enumeration'
 
@@ -177,6 +178,9 @@ def generated(quick):
 
     def add(label, text):
         fam.append((label, text.encode() if isinstance(text, str) else text))
+    # type origins x type consumers (most are valid; the invalid combinations must be diagnosed, not crash)
+    for label, data in typegrid(quick):
+        add(label, data)
     for n in ns:
         add('paren-expr/%d' % n, 'int x = ' + '(' * n + '1' + ')' * n + ';\n')
         add('blocks/%d' % n, 'void f(void) ' + '{' * n + '}' * n + '\n')
